@@ -22,7 +22,8 @@ ACL_APIS = ["Produce", "Fetch", "FetchById", "ListOffsets", "OffsetForLeaderEpoc
             "OffsetFetch", "DescribeGroups", "ListGroups", "DeleteGroups"]
 DEV = {
     "C24": dict([("Handler_MetaNoAcl", "C24_"), ("Handler_AclAfterAppend", "C24_"), ("Handler_FetchAclOnRequestName", "C24_")] + [("Handler_NoAclOn" + a, "C24_") for a in ACL_APIS if a != "FetchById"]),
-    "C19": {"HandlerLease_GateAfterAppend": "C19_", "HandlerLease_LeaseCheckSkipped": "C19_", "HandlerLease_StaleOwnedOnSessionReplace": "C19_"},
+    "C19": {"HandlerLease_GateAfterAppend": "C19_", "HandlerLease_LeaseCheckSkipped": "C19_", "HandlerLease_StaleOwnedOnSessionReplace": "C19_",
+            "HandlerLease_LeaseErrMisindexed": "C19_"},
 }
 QUICK_DEVS = ["Handler_MetaNoAcl", "Handler_AclAfterAppend", "Handler_FetchAclOnRequestName", "Handler_NoAclOnProduce", "Handler_NoAclOnFetch", "Handler_NoAclOnOffsetCommit", "Handler_NoAclOnCreateTopics"]
 TRACE_CFG = """CONSTANTS
@@ -43,6 +44,7 @@ TRACE_CFG = """CONSTANTS
  DevLeaseCheckSkipped = FALSE
  DevFetchAclOnRequestName = FALSE
  DevStaleOwnedOnSessionReplace = FALSE
+ DevLeaseErrMisindexed = FALSE
 INIT TInit
 NEXT TNext
 POSTCONDITION Reached
